@@ -231,11 +231,49 @@ def _closure(ctx, paths) -> None:
         us = [e.elts[0].value for e in lst[0].elts] if lst and isinstance(lst[0], ast.List) else []
         iw_units.append(us)
         ctx.ob("INWORDS.units", q, us == UNITS, f"units listed {us}; expected {UNITS}", mod_.loc(fn))
-        keys = sorted({nun(c.args[0]) for c in core.calls(fn) if nun(c.func) == "loaded_locale.translation"})
-        keys += sorted({nun(a.value) for a in core.walk_fn(fn) if isinstance(a, ast.Assign) and nun(a.targets[0]) == "unit" and isinstance(a.value, ast.JoinedStr)})
-        want = sorted(["f'units.{unit}.{loaded_locale.plural(abs(interval_count))}'", "unit", "f'units.second.{loaded_locale.plural(1)}'",
-                       "f'units.microsecond.{loaded_locale.plural(0)}'"])
-        ctx.ob("INWORDS.keys", q, sorted(keys) == want, f"translation keys {keys}", mod_.loc(fn))
+        # the key templates handed to <locale>.translation(...), with local names abstracted away: a key argument that is a
+        # local is replaced by the f-strings assigned to it; {x} -> {unit}, {<locale>.plural(abs(n))} -> {plural(abs(count))}
+        def template(js) -> str | None:
+            if isinstance(js, ast.Constant) and isinstance(js.value, str):
+                return js.value
+            if not isinstance(js, ast.JoinedStr):
+                return None
+            out_ = ""
+            for v_ in js.values:
+                if isinstance(v_, ast.Constant):
+                    out_ += str(v_.value)
+                    continue
+                e_ = v_.value
+                if isinstance(e_, ast.Name):        # a named intermediate: `plural_form = <locale>.plural(...)`
+                    pl = [x for x in core.assigns_to(fn, e_.id) if isinstance(x, ast.Call) and isinstance(x.func, ast.Attribute) and x.func.attr == "plural"]
+                    if pl:
+                        e_ = pl[0]
+                if isinstance(e_, ast.Call) and isinstance(e_.func, ast.Attribute) and e_.func.attr == "plural" and len(e_.args) == 1:
+                    a_ = e_.args[0]
+                    if isinstance(a_, ast.Constant):
+                        out_ += f"{{plural({a_.value})}}"
+                    elif isinstance(a_, ast.Call) and nun(a_.func) == "abs" and len(a_.args) == 1 and isinstance(a_.args[0], ast.Name):
+                        out_ += "{plural(abs(count))}"
+                    else:
+                        out_ += f"{{plural({nun(a_)})}}"
+                elif isinstance(e_, ast.Name):
+                    out_ += "{unit}"
+                else:
+                    out_ += f"{{{nun(e_)}}}"
+            return out_
+        keys = set()
+        for c in core.calls(fn):
+            if isinstance(c.func, ast.Attribute) and c.func.attr == "translation" and c.args:
+                a0 = c.args[0]
+                cands = [a0]
+                if isinstance(a0, ast.Name):
+                    cands = [x for x in core.assigns_to(fn, a0.id)] + [t_.value for t_ in core.walk_fn(fn) if isinstance(t_, ast.Assign) and nun(t_.targets[0]) == a0.id]
+                for cnd in cands:
+                    t_ = template(cnd)
+                    if t_ is not None:
+                        keys.add(t_)
+        want = {"units.{unit}.{plural(abs(count))}", "units.second.{plural(1)}", "units.microsecond.{plural(0)}"}
+        ctx.ob("INWORDS.keys", q, keys == want, f"translation key templates {sorted(keys)}; expected {sorted(want)}", mod_.loc(fn))
     total = 0
     for loc in locs:
         try:
